@@ -4,7 +4,7 @@ from vf.coqterm import Z, N, B, S, L, T, C, Rec, Nat, Opt
 
 ID = "C01"
 COQ_TARGETS = ["props/C01.vo", "model/MuxCheck.vo"]
-THEOREMS_ALL = [
+THEOREMS = [
     ("EG.props.C01", "C01_loop_refines_spec"),
     ("EG.props.C01", "C01_first_match"),
     ("EG.props.C01", "C01_failure_precedence"),
@@ -18,7 +18,6 @@ THEOREMS_ALL = [
     ("EG.props.C01", "C01_port_ignored"),
     ("EG.props.C01", "C01_valid_never_panics"),
 ]
-THEOREMS = [("EG.props.C01", "C01_unknown_backend_503")]  # TEMP
 HARNESSES = [
     dict(name="route", pkg="pkg/object/httpserver", files=["harness/httpserver/zz_verif_c01_test.go"],
          run="TestVerifC01", groups=["route"], timeout=600),
